@@ -173,6 +173,8 @@ def _run_structural(ctx):
     rule_close_writes(ctx, r3, ("tracked jobs",))
     from .persist import rule_table_ownership
     rule_table_ownership(ctx, r3)
+    from .shared import rule_log_filters
+    rule_log_filters(ctx, r3, "`gwf run --dry-run` names only the first target it would submit while status lists, and a real run submits, all of them")
     from .shared import import_rules as _imp
     _imp(ctx, r3, "C08", only={"R2"})      # the ids written at submission are the ids the next status reads and the backend is asked about (type and all)
     from .evalhelpers import cached_witness, report_witness
